@@ -114,6 +114,16 @@ impl ContinuousOutput {
             return None;
         }
         
+        // A segment that contains t is preferred to one that is merely within the slack of t: with steps shorter than
+        // the slack an earlier segment would otherwise be extrapolated over several steps
+        for seg in &self.segs {
+            let left = seg.xold.min(seg.xold + seg.h);
+            let right = seg.xold.max(seg.xold + seg.h);
+            if t >= left && t <= right {
+                return Some(seg);
+            }
+        }
+
         // Strict interpolation - only return segment if t is within it
         for seg in &self.segs {
             let left = seg.xold.min(seg.xold + seg.h);
@@ -131,7 +141,14 @@ impl ContinuousOutput {
             return None;
         }
         
-        // First check if t is within any segment (interpolation)
+        // First check if t is within any segment (interpolation): exactly, then within the slack
+        for seg in &self.segs {
+            let left = seg.xold.min(seg.xold + seg.h);
+            let right = seg.xold.max(seg.xold + seg.h);
+            if t >= left && t <= right {
+                return Some(seg);
+            }
+        }
         for seg in &self.segs {
             let left = seg.xold.min(seg.xold + seg.h);
             let right = seg.xold.max(seg.xold + seg.h);
